@@ -2088,6 +2088,9 @@ class SSHClientTransport(SSHTransportBase):
         """
         SSHTransportBase._keySetup(self, sharedSecret, exchangeHash)
         if self._gotNewKeys:
+            # The early NEWKEYS belongs to this key exchange only; the next
+            # one has to wait for its own.
+            self._gotNewKeys = 0
             self.ssh_NEWKEYS(b"")
 
     def ssh_NEWKEYS(self, packet):
